@@ -310,17 +310,17 @@ class Concretiser:
                 self.rnd.shuffle(at)
             return self.wrap_dir(at, n["ch"])
         if t == "tmplis":
-            at = [self.attr_text("is", n["target"])]
+            at = self.take_dir() + [self.attr_text("is", n["target"])]
             if n["data"]["t"] != "none":
                 at.append(self.attr_text("data", n["data"], object_inner=True))
             return self.element("template", at, "")
         if t == "include":
             if "src" in n:
-                return self.element("include", ['src="%s"' % n["src"]], "")
+                return self.element("include", self.take_dir() + ['src="%s"' % n["src"]], "")
             p = n["path"]
-            return self.element("include", ['src="%s"' % (p + (".wxml" if self.chance(0.3) else ""))], "")
+            return self.element("include", self.take_dir() + ['src="%s"' % (p + (".wxml" if self.chance(0.3) else ""))], "")
         if t == "slot":
-            at = []
+            at = self.take_dir()
             if n["name"]["t"] != "none":
                 at.append(self.attr_text("name", n["name"]))
             at += [self.attr(a) for a in n["at"]]
@@ -367,8 +367,21 @@ class Concretiser:
             s = s.replace('" ', '"\n ').replace("/>", " />")
         return s
 
+    pending_dir = None
+
+    def take_dir(self):
+        d = self.pending_dir or []
+        self.pending_dir = None
+        return d
+
     def wrap_dir(self, dir_attrs, ch):
         """wx:if / wx:for on the single child element itself, or on a wrapping <block>"""
+        if len(ch) == 1 and ch[0]["t"] in ("include", "tmplis", "slot") and not self.plain and self.rnd.random() < 0.5:
+            # the directive on the <include> / <template is> / <slot> tag itself
+            self.pending_dir = list(dir_attrs)
+            out = self.node(ch[0])
+            assert self.pending_dir is None
+            return out
         if len(ch) == 1 and ch[0]["t"] == "elem" and not ch[0].get("dx") and not any(a["f"] == "slot:" for a in ch[0]["at"]) \
                 and not self.plain and self.rnd.random() < 0.5:
             e = ch[0]
